@@ -11,7 +11,7 @@ use serde_json::{json, Value};
 use std::sync::atomic::Ordering;
 use std::sync::Arc;
 
-pub const COUNTERS: &[&str] = &["histories", "operations", "moves_accepted", "illegal_moves_refused", "offers", "accepts_granted", "accepts_refused", "declares_attempted", "resignations", "results_reached", "post_result_operations_refused", "full_move_value_sweeps", "roots", "long_prefix_histories", "one_ply_starts", "long_game_histories"];
+pub const COUNTERS: &[&str] = &["histories", "operations", "moves_accepted", "illegal_moves_refused", "offers", "accepts_granted", "accepts_refused", "declares_attempted", "resignations", "results_reached", "post_result_operations_refused", "full_move_value_sweeps", "roots", "long_prefix_histories", "one_ply_starts", "long_game_histories", "very_long_game_histories"];
 
 pub const GAME_ROOTS: &[&str] = &[
     "rnbqkbnr/pppppppp/8/8/8/8/PPPPPPPP/RNBQKBNR w KQkq - 0 1",
@@ -183,7 +183,7 @@ fn depth_for(p: &RefPos, budget: f64, cap: u32) -> u32 {
     d
 }
 
-pub const RULE: &str = "histories = every sequence of operations up to depth d (d chosen per root so that menu^d stays within the budget: 3-4 on dense roots, up to 7 on roots with few moves) from 36 roots (start position, sparse endings, mate-in-one, stalemate-in-one, already mated, already stalemated, en passant, promotion, castling; each also colour-mirrored). Menu at each history: every legal move; a structured illegal set (pseudo-legal-but-illegal moves, wrong promotion field, enemy man, empty square, a move legal one ply earlier); offer_draw(W|B), accept_draw, declare_draw, resign(W|B); at depth <= 1 additionally all 20480 move values. After every operation: return value, result(), current_position(), side_to_move(), actions(), can_declare_draw() against the reference automaton; once a result exists every operation must be refused and change nothing. Additionally, from K+R v K roots quiet prefixes of 99..=102 half-moves (repetition-free C11 fillers, and a plain shuffle cycle that keeps a mate in one available throughout) are followed by every operation sequence of depth 2. One-ply legality sweep: a game from every curated root, every feature-covering root and every member of the en-passant families (one and two capturers), offered every legal and every pseudo-legal-but-illegal move. Long games with deviations: two quiet scripted games of 300 half-moves with one non-move operation (offer by either colour, accept, claim) spliced in before EVERY action index (thorough: also pairs at distances 1, 2, 31..33, 63..65, 127..129), observers compared after every operation. states = histories, transitions = operations executed. distinct_nontrivial = histories that end in a result";
+pub const RULE: &str = "histories = every sequence of operations up to depth d (d chosen per root so that menu^d stays within the budget: 3-4 on dense roots, up to 7 on roots with few moves) from 36 roots (start position, sparse endings, mate-in-one, stalemate-in-one, already mated, already stalemated, en passant, promotion, castling; each also colour-mirrored). Menu at each history: every legal move; a structured illegal set (pseudo-legal-but-illegal moves, wrong promotion field, enemy man, empty square, a move legal one ply earlier); offer_draw(W|B), accept_draw, declare_draw, resign(W|B); at depth <= 1 additionally all 20480 move values. After every operation: return value, result(), current_position(), side_to_move(), actions(), can_declare_draw() against the reference automaton; once a result exists every operation must be refused and change nothing. Additionally, from K+R v K roots quiet prefixes of 99..=102 half-moves (repetition-free C11 fillers, and a plain shuffle cycle that keeps a mate in one available throughout) are followed by every operation sequence of depth 2. One-ply legality sweep: a game from every curated root, every feature-covering root and every member of the en-passant families (one and two capturers), offered every legal and every pseudo-legal-but-illegal move. Long games with deviations: two quiet scripted games of 300 half-moves and 12 eventful opening lines of 22 half-moves (captures, castling, pawn moves) with one non-move operation (offer by either colour, accept, claim, resignation by either colour — after which the rest of the script must be refused) spliced in before EVERY action index (thorough: also pairs at distances 1, 2, 31..33, 63..65, 127..129), observers compared after every operation; three more scripts hold a pawn move or capture followed by a threefold repetition. Very long games: a 1100-ply (thorough 2100) shuffle with one non-move operation before every action index; full lock step around the spliced operation, every 97th operation and at the end, return value of every other operation. states = histories, transitions = operations executed. distinct_nontrivial = histories that end in a result";
 
 pub fn run(tier: Tier) -> i32 {
     let run = Arc::new(Run::new("C10", tier, COUNTERS));
@@ -340,7 +340,18 @@ pub fn run(tier: Tier) -> i32 {
             let start = RefPos::from_fen(super::c11::FILLER_ROOTS[*i]).expect("machinery: filler root");
             super::c11::build_history(&start, &[], 300).map(|h| (start, h))
         }).collect();
-        let devs = [GOp::Offer(Col::W), GOp::Offer(Col::B), GOp::Accept, GOp::Declare];
+        // eventful scripts as well: 12 main-line openings (22 plies each, with captures, castling on both
+        // wings, pawn moves) from the standard start
+        let mut scripts = scripts;
+        let startpos = RefPos::from_fen("rnbqkbnr/pppppppp/8/8/8/8/PPPPPPPP/RNBQKBNR w KQkq - 0 1").unwrap();
+        for line in crate::universe::OPENING_LINES {
+            scripts.push((startpos, line.split_whitespace().map(|m| GOp::Move(RMove::parse_uci(m).expect("machinery: opening move"))).collect()));
+        }
+        // a history-cutting move (pawn move / capture) followed by a threefold repetition
+        for line in ["e2e4 e7e5 g1f3 g8f6 f3g1 f6g8 g1f3 g8f6 f3g1 f6g8 g1f3 g8f6 f3g1 f6g8", "e2e4 d7d5 e4d5 g8f6 g1f3 f6g8 f3g1 g8f6 g1f3 f6g8 f3g1 g8f6 g1f3 f6g8 f3g1", "g1f3 g8f6 f3g1 f6g8 e2e4 e7e5 g1f3 g8f6 f3g1 f6g8 g1f3 g8f6 f3g1 f6g8"] {
+            scripts.push((startpos, line.split_whitespace().map(|m| GOp::Move(RMove::parse_uci(m).expect("machinery: script move"))).collect()));
+        }
+        let devs = [GOp::Offer(Col::W), GOp::Offer(Col::B), GOp::Accept, GOp::Declare, GOp::Resign(Col::W), GOp::Resign(Col::B)];
         let mut jobs3: Vec<(usize, Vec<(usize, GOp)>)> = vec![];
         for (si, (_, h)) in scripts.iter().enumerate() {
             jobs3.push((si, vec![]));
@@ -398,6 +409,97 @@ pub fn run(tier: Tier) -> i32 {
                         return;
                     }
                     Ok(info) => count(&run, op, &info, had),
+                }
+            }
+        });
+    }
+    // (e) very long games: a shuffle of 1100 (thorough 2100) half-moves with one non-move operation before
+    // EVERY action index.  Checking every observer after every operation would be quadratic in the length
+    // on both sides, so: the full lock step (return value + all observers) runs for the spliced operation, the
+    // two operations after it, every 97th operation and the last three; every other operation is applied
+    // directly and only its return value is judged (a scripted move is legal, so it must be accepted while
+    // the game is open and refused once it has a result).
+    if !run.has_violation() {
+        let n = tier.pick(1100usize, 2100usize);
+        let base = RefPos::from_fen("k7/8/1K6/8/8/8/8/7R w - - 0 1").expect("machinery: shuffle root");
+        let cyc: Vec<RMove> = ["h1g1", "a8b8", "g1h1", "b8a8"].iter().map(|m| RMove::parse_uci(m).unwrap()).collect();
+        let mut jobs4: Vec<(bool, usize, GOp)> = vec![];
+        for mirror in [false, true] {
+            for i in 0..=n {
+                for d in [GOp::Offer(Col::W), GOp::Offer(Col::B), GOp::Accept, GOp::Declare] {
+                    // a claim is granted from the 9th ply on (repetition) and ends the game: early ones, then sparse;
+                    // quick tier: the colour-mirrored game only with White's offer, accept only sparsely
+                    if d == GOp::Declare && i > 12 && i % 64 != 0 {
+                        continue;
+                    }
+                    if tier == Tier::Quick && ((mirror && d != GOp::Offer(Col::W)) || (d == GOp::Accept && i % 16 != 0)) {
+                        continue;
+                    }
+                    jobs4.push((mirror, i, d));
+                }
+            }
+        }
+        jobs4.par_iter().for_each(|(mirror, at, dev)| {
+            if run.has_violation() || run.over_budget() {
+                return;
+            }
+            let start = if *mirror { base.mirror_v() } else { base };
+            let mut refg = RefGame::new(start);
+            let mut lib = new_game(&start).expect("machinery: shuffle root");
+            let mut ops: Vec<GOp> = vec![];
+            let mut full: Vec<GOp> = Vec::with_capacity(n + 1);
+            for i in 0..n {
+                if i == *at {
+                    full.push(*dev);
+                }
+                full.push(GOp::Move(if *mirror { mirror_v_move(cyc[i % 4]) } else { cyc[i % 4] }));
+            }
+            if *at == n {
+                full.push(*dev);
+            }
+            run.add("very_long_game_histories", 1);
+            run.states.fetch_add(1, Ordering::Relaxed);
+            let mut finished = false;
+            let total = full.len();
+            for (k, op) in full.iter().enumerate() {
+                ops.push(*op);
+                run.transitions.fetch_add(1, Ordering::Relaxed);
+                let near = k + 1 >= *at && k <= *at + 2;
+                if near || k % 97 == 0 || k + 3 >= total {
+                    guard::crumb_text(&format!("very long game from {} deviation {}@{} action {}", start.fen(), dev.name(), at, k));
+                    match step(&mut refg, &mut lib, op) {
+                        Err(f) => {
+                            run.report(Violation::new("C10", f.clause, &f.shape, format!("{}\n  start {}\n  very long game, {} before action {}, failing at action {}", f.detail, start.fen(), dev.name(), at, k), case_json(&start, &ops)));
+                            return;
+                        }
+                        Ok(_) => finished = refg.result().is_some(),
+                    }
+                } else {
+                    let mut l2 = std::mem::replace(&mut lib, Game::new());
+                    let op2 = *op;
+                    let r = guard::lib(move || {
+                        let ret = match op2 {
+                            GOp::Move(m) => l2.make_move(crate::bridge::lmove(m)),
+                            _ => false,
+                        };
+                        (ret, l2)
+                    });
+                    match r {
+                        Ok((ret, l3)) => {
+                            lib = l3;
+                            if ret == finished {
+                                run.report(Violation::new("C10", if ret { "post-result-accepted" } else { "legal-move-refused" }, "very long game", format!("make_move({}) returned {} at action {} of a very long game ({} before action {}); the game is {}\n  start {}", op.name(), ret, k, dev.name(), at, if finished { "finished" } else { "open and the move is legal" }, start.fen()), case_json(&start, &ops)));
+                                return;
+                            }
+                            if ret {
+                                refg.log.push(op.action());
+                            }
+                        }
+                        Err(e) => {
+                            run.report(Violation::new("C10", "panic", "make_move panicked", format!("make_move({}) panicked at action {} of a very long game: {e}", op.name(), k), case_json(&start, &ops)));
+                            return;
+                        }
+                    }
                 }
             }
         });
